@@ -39,6 +39,7 @@ def gen_case(rng: random.Random, i: int, thorough: bool):
     # a hold-over left on the shot while it is zeroed (the statement fires back with none), and the zero distance handed over
     # in various units or as a bare number in the preferred distance unit
     return {"shot": p, "d_yd": d_yd, "prev_zero_rad": prev, "cfg": cfg, "holdover_rad": [0.0, 0.0015, 0.0, -0.004][i % 4],
+            "pref_angular": [None, "InchesPer100Yd", "Mil", "CmPer100m", None, "Radian", "MOA", "CmPer100m", "InchesPer100Yd", "OClock", "Thousandth"][i % 11],
             "dist_as": ["Yard", "Meter", "Foot", "bare:Meter", "Yard", "bare:Foot", "Inch"][i % 7]}
 
 
@@ -117,6 +118,12 @@ def run_case(case, tid):
     else:
         du = getattr(U, das)
         d_arg = du(U.Yard(case["d_yd"]) >> du)
+    # the preferred ANGLE unit in force while zeroing (every input carries its unit, so it must not matter); the tangent-based
+    # units are the ones in which differences of angles are not angles
+    pa = case.get("pref_angular")
+    if pa:
+        m.PreferredUnits.angular = getattr(U, pa)
+        m.PreferredUnits.adjustment = getattr(U, pa)
     o = impl.outcome(calc.set_weapon_zero, shot, d_arg)
     rec.remove()
     m.PreferredUnits.defaults()
@@ -284,6 +291,8 @@ def run(chk: core.Check, replay=None) -> None:
             chk.stratum("miss_observed")
         if case["prev_zero_rad"] != 0.0:
             chk.stratum("previous_zero_nonzero")
+        if case.get("pref_angular") in ("InchesPer100Yd", "CmPer100m") and look >= 5 and info["outcome"] == "Returned":
+            chk.stratum("tangent_based_preferred_angle_on_inclined_line")
         if len(case["shot"]["winds"]) >= 2 and case["shot"]["winds"][0][2] < case["d_yd"] * 3.0:
             chk.stratum("wind_changes_inside_zero_distance")
         if case["cfg"].get("cMaxIterations"):
@@ -320,7 +329,7 @@ def run(chk: core.Check, replay=None) -> None:
     chk.sample({k: v for k, v in infos[1].items()})
     chk.sample({"trace_lines": lines[:4]})
     chk.require_strata(["zero_after_a_zero_on_another_sight_line", "unreachable_below_the_altitude_floor", "reachable", "unreachable", "look_level", "look_mild", "look_steep",
-                        "miss_observed", "previous_zero_nonzero", "small_iteration_cap_ZeroErr", "wind_changes_inside_zero_distance", "steep_and_long"])
+                        "miss_observed", "previous_zero_nonzero", "tangent_based_preferred_angle_on_inclined_line", "small_iteration_cap_ZeroErr", "wind_changes_inside_zero_distance", "steep_and_long"])
     chk.exhaustive = False
     chk.rule.append("seeded un-canted shots (G1/G7/.. tables, 600-4000 fps, sight heights -2..6 in, look angles 0, +-5..+-59 deg, 0-2 "
                     "winds, previously stored zero 0 / small / large / negative) x zero distances 10 yd - 1500 yd, plus unreachable "
